@@ -71,6 +71,23 @@ pub struct Model {
     pub runs: Vec<(u8, Cell)>,
     pub compress: bool,
     pub sauce: bool,
+    /// set by the generator only: it removed the trigger of an open known finding from this model (class tag `~`);
+    /// replay and witness files never carry it
+    #[serde(default)]
+    pub steered: bool,
+}
+
+/// which open known findings the generators steer away from (see main.rs `STEER_IDS`)
+#[derive(Clone, Copy, Debug, Default)]
+pub struct Steer {
+    /// C05-tnd-ctrl-chars: no characters 1..=6 in Tundra buffers
+    pub tnd_ctrl: bool,
+    /// C05-tnd-palette0-not-black: the first cell never uses the colour of a non-black palette entry 0
+    pub tnd_pal0: bool,
+    /// C05-xb-512-without-font (fuzz parts: detected on the loaded buffer before the re-save clause)
+    pub xb_512: bool,
+    /// C05-idf-loader-accepts-unwritable (fuzz parts, likewise)
+    pub idf_unwritable: bool,
 }
 
 pub const DEFPAL6: [[u8; 3]; 16] = [
@@ -219,7 +236,8 @@ impl Model {
                 }
             }
             Fmt::Tnd => {
-                if !self.sauce || !self.ice || self.fonts != [FontM::Default] || self.palette.is_empty() {
+                // width 1..=1000: a SAUCE width of 0 or > 1000 is read as 80 on purpose (Buffer::set_sauce, property C11)
+                if self.w > 1000 || !self.sauce || !self.ice || self.fonts != [FontM::Default] || self.palette.is_empty() {
                     return bad("tnd");
                 }
             }
@@ -404,7 +422,7 @@ pub fn xb_models(small: bool) -> BoxedStrategy<Model> {
     let fonts = prop_oneof![3 => font1().prop_map(|f| vec![f]), 2 => (font1(), any::<u16>()).prop_map(|(a, s)| vec![a, FontM::Custom(s)])];
     (size, any::<bool>(), pal6(), font_h, fonts, raw_runs(if small { 40 } else { 120 }), any::<bool>(), any::<bool>())
         .prop_map(|((w, h), ice, palette, font_h, fonts, runs, compress, sauce)| {
-            finish(Model { fmt: Fmt::Xb, w, h, ice, palette, font_h, fonts, runs, compress, sauce }, false)
+            finish(Model { fmt: Fmt::Xb, w, h, ice, palette, font_h, fonts, runs, compress, sauce, steered: false }, false)
         })
         .boxed()
 }
@@ -419,7 +437,7 @@ pub fn bin_models(small: bool) -> BoxedStrategy<Model> {
     (width, height, any::<bool>(), raw_runs(if small { 40 } else { 120 }))
         .prop_map(|(w, h, ice, runs)| {
             finish(
-                Model { fmt: Fmt::Bin, w, h, ice, palette: DEFPAL6.to_vec(), font_h: 16, fonts: vec![FontM::Default], runs, compress: false, sauce: true },
+                Model { fmt: Fmt::Bin, w, h, ice, palette: DEFPAL6.to_vec(), font_h: 16, fonts: vec![FontM::Default], runs, compress: false, sauce: true, steered: false },
                 false,
             )
         })
@@ -430,7 +448,7 @@ pub fn adf_models(small: bool) -> BoxedStrategy<Model> {
     let height = if small { (1u16..=30).boxed() } else { heights() };
     (height, pal6(), font1(), raw_runs(if small { 40 } else { 120 }), any::<bool>())
         .prop_map(|(h, palette, font, runs, sauce)| {
-            finish(Model { fmt: Fmt::Adf, w: 80, h, ice: true, palette, font_h: 16, fonts: vec![font], runs, compress: false, sauce }, false)
+            finish(Model { fmt: Fmt::Adf, w: 80, h, ice: true, palette, font_h: 16, fonts: vec![font], runs, compress: false, sauce, steered: false }, false)
         })
         .boxed()
 }
@@ -450,12 +468,13 @@ pub fn idf_models(small: bool) -> BoxedStrategy<Model> {
     (width, height, pal6(), font1(), runs, any::<bool>(), any::<bool>())
         .prop_map(|(w, h, palette, font, runs, compress, sauce)| {
             // `finish` rescales colours 0..32 -> 0..16; the inserted marker cells are already final (0 stays 0)
-            finish(Model { fmt: Fmt::Idf, w, h, ice: true, palette, font_h: 16, fonts: vec![font], runs, compress, sauce }, false)
+            finish(Model { fmt: Fmt::Idf, w, h, ice: true, palette, font_h: 16, fonts: vec![font], runs, compress, sauce, steered: false }, false)
         })
         .boxed()
 }
 
-pub fn tnd_models(small: bool) -> BoxedStrategy<Model> {
+pub fn tnd_models(small: bool, st: Steer) -> BoxedStrategy<Model> {
+    // widths 1..=1000: Buffer::set_sauce deliberately reads a SAUCE width of 0 or > 1000 as 80 (property C11)
     let size = if small {
         prop_oneof![3 => (1u16..=40, 1u16..=30), 1 => (Just(80u16), 1u16..=30)].boxed()
     } else {
@@ -463,19 +482,32 @@ pub fn tnd_models(small: bool) -> BoxedStrategy<Model> {
             5 => (1u16..=100, heights()),
             3 => (Just(80u16), heights()),
             1 => (101u16..=1000, 1u16..=6),
-            // "any width": beyond what SAUCE-driven sizing accepts
-            1 => (1001u16..=1300, 1u16..=2),
+            1 => (Just(1000u16), 1u16..=2),
         ]
         .boxed()
     };
-    // characters 1..=6 collide with Tundra's command bytes; two thirds of the cases stay clear of them so that a
-    // defect in their escaping cannot hide everything else
+    // characters 1..=6 collide with Tundra's command bytes; two thirds of the cases stay clear of them anyway
     (size, pal24(), raw_runs(if small { 40 } else { 120 }), 0u8..3)
-        .prop_map(|((w, h), palette, runs, ctl)| {
-            finish(
-                Model { fmt: Fmt::Tnd, w, h, ice: true, palette, font_h: 16, fonts: vec![FontM::Default], runs, compress: false, sauce: true },
-                ctl != 0,
-            )
+        .prop_map(move |((w, h), palette, runs, ctl)| {
+            let raw = Model { fmt: Fmt::Tnd, w, h, ice: true, palette, font_h: 16, fonts: vec![FontM::Default], runs, compress: false, sauce: true, steered: false };
+            let mut steered = false;
+            let mut avoid_ctrl = ctl != 0;
+            if st.tnd_ctrl && !avoid_ctrl {
+                avoid_ctrl = true;
+                steered = raw.runs.iter().any(|(_, c)| (1..=6).contains(&c.ch));
+            }
+            let mut m = finish(raw, avoid_ctrl);
+            // C05-tnd-palette0-not-black fires exactly when entry 0 is not black and the first cell is drawn in
+            // entry 0's colour (foreground or background): the writer then emits no command for it
+            if st.tnd_pal0 && m.palette[0] != [0, 0, 0] {
+                let c0 = m.runs[0].1;
+                if m.palette[c0.fg as usize] == m.palette[0] || m.palette[c0.bg as usize] == m.palette[0] {
+                    m.palette[0] = [0, 0, 0];
+                    steered = true;
+                }
+            }
+            m.steered = steered;
+            m
         })
         .boxed()
 }
